@@ -7,4 +7,5 @@ export VERIF_EXTRA_OVERLAY="$VERIF_REPO/graphql/handler/transport/export_verif.g
 exec /verif/tools/instr_check.sh c07 "$tier" -maprange \
   github.com/99designs/gqlgen/graphql github.com/99designs/gqlgen/graphql/executor \
   github.com/99designs/gqlgen/graphql/handler github.com/99designs/gqlgen/graphql/handler/transport \
-  github.com/99designs/gqlgen/graphql/handler/extension github.com/99designs/gqlgen/graphql/handler/lru
+  github.com/99designs/gqlgen/graphql/handler/extension github.com/99designs/gqlgen/graphql/handler/lru \
+  'github.com/gorilla/websocket:^conn\.go$'
